@@ -32,6 +32,7 @@ type Unit struct {
 	Gen       string            `json:"gen"`       // generator to run before loading (produces Files)
 	Shards    int               `json:"shards"`
 	Optional  bool              `json:"optional"`
+	VirtFiles map[string]string `json:"virt_files"` // virtual file (relative to repo) -> repo file it is a copy of
 }
 
 type HarnessSel struct {
@@ -161,7 +162,17 @@ func workDir(id string) string {
 func buildOverlay(id string, u *Unit, repo string) (map[string]string, error) {
 	ov := map[string]string{}
 	pkgDir := filepath.Join(repo, u.Pkg)
-	pkgName, err := packageName(pkgDir)
+	var pkgName string
+	var err error
+	for virt, real := range u.VirtFiles {
+		ov[filepath.Join(repo, virt)] = filepath.Join(repo, real)
+		if pkgName == "" {
+			pkgName, err = packageNameOfFile(filepath.Join(repo, real))
+		}
+	}
+	if pkgName == "" {
+		pkgName, err = packageName(pkgDir)
+	}
 	if err != nil {
 		return nil, err
 	}
@@ -179,7 +190,7 @@ func buildOverlay(id string, u *Unit, repo string) (map[string]string, error) {
 		if _, err := os.Stat(real); err != nil {
 			real = filepath.Join(wd, f) // generated
 		}
-		ov[filepath.Join(pkgDir, "zz_verif_"+filepath.Base(f))] = real
+		ov[filepath.Join(pkgDir, "zz_verif_"+filepath.Base(f))] = substPkg(real, pkgName, wd)
 	}
 	for virt, realDir := range u.RefPkgs {
 		rd := realDir
@@ -199,6 +210,20 @@ func buildOverlay(id string, u *Unit, repo string) (map[string]string, error) {
 		}
 	}
 	return ov, nil
+}
+
+func packageNameOfFile(f string) (string, error) {
+	b, err := os.ReadFile(f)
+	if err != nil {
+		return "", err
+	}
+	for _, l := range strings.Split(string(b), "\n") {
+		l = strings.TrimSpace(l)
+		if strings.HasPrefix(l, "package ") {
+			return strings.Fields(l)[1], nil
+		}
+	}
+	return "", fmt.Errorf("no package clause in %s", f)
 }
 
 func packageName(dir string) (string, error) {
@@ -801,4 +826,16 @@ func cmdSelfcheck() int {
 	}
 	fmt.Println("selfcheck ok")
 	return 0
+}
+
+// substPkg: harness files shared between packages start with "package PKG"; a copy with
+// the real package name is written to the work directory.
+func substPkg(real, pkgName, wd string) string {
+	b, err := os.ReadFile(real)
+	if err != nil || !strings.HasPrefix(string(b), "package PKG\n") {
+		return real
+	}
+	out := filepath.Join(wd, "subst_"+pkgName+"_"+filepath.Base(real))
+	os.WriteFile(out, []byte(strings.Replace(string(b), "package PKG\n", "package "+pkgName+"\n", 1)), 0o644)
+	return out
 }
